@@ -2,7 +2,7 @@
 from __future__ import annotations
 
 from ..prop import Layer, Prop
-from .conc import make_execute, scenarios
+from .conc import h2_multi_connection_scenarios, make_execute, scenarios
 
 RULE = ("Concurrent histories on the harness-scheduled asyncio driver: 2-4 callers x 1-3 sequential requests over 1-3 origins, pool with "
         "max_connections 1-3 and keep-alive limit None/0/1, HTTP/1.1 keep-alive and HTTP/2 (ALPN, prior knowledge, h2-capable pool against an "
@@ -10,14 +10,16 @@ RULE = ("Concurrent histories on the harness-scheduled asyncio driver: 2-4 calle
         "server plans per token: status, Content-Length / chunked / close-delimited, Connection: close, HTTP/1.0, interim 1xx, bodies 0..140 kB; "
         "0-2 network faults (error / timeout / EOF at a drawn op index), optionally one caller cancelled at a drawn suspension (task or scope "
         "style), server-side closes of idle connections, a drawn schedule (which enabled action runs next) and read segmentation. "
-        "Oracle: token echo (status, x-tok header, body / prefix for partial reads) + per-pipe wire check that a request head only starts after "
+        "Second layer: 2-3 HTTP/2 connections (one per origin, limits 3-4) carrying overlapping exchanges of up to 5 callers on a "
+        "well-behaved network (same stream ids in flight on different connections). Oracle: token echo (status, x-tok header, body / prefix for partial reads) + per-pipe wire check that a request head only starts after "
         "the previous exchange finished in both directions and did not announce close. Non-trivial: a connection carried >= 2 requests after "
         "a disruptive event (early close, fault, cancellation, close-announcing response), or >= 2 streams were open at once on one HTTP/2 "
         "connection; distinct = distinct scenario.")
 
 PROP = Prop(
     "C01", level="exploration", rule=RULE,
-    layers=[Layer("histories", strategy=scenarios, execute=make_execute("C01"), budget={"quick": 3000, "thorough": 60000})],
+    layers=[Layer("histories", strategy=scenarios, execute=make_execute("C01"), budget={"quick": 3000, "thorough": 60000}),
+            Layer("h2-multi-connection", strategy=h2_multi_connection_scenarios, execute=make_execute("C01"), budget={"quick": 1200, "thorough": 30000})],
     assumptions=["the server always sends exactly one well-framed final response per complete request (malformed data is C15's domain)",
                  "asyncio driver (schedules are sampled by a harness-owned scheduler and reproducible from the replay file); threads are covered by C08",
                  "runs in which a listed open C05 finding fired are judged as usual; their signature carries the cancellation site"],
